@@ -106,7 +106,7 @@ class ControlledPool(ThreadPoolExecutor):
         self.eager_chooser = eager_chooser
         self.eager_trace = None
 
-    def submit(self, fn, *args, **kwargs):
+    def submit(self, fn, /, *args, **kwargs):
         f = MonitoredFuture()
         self.parked.append((f, fn, args, kwargs, label_of(fn, args)))
         if self.eager_chooser is not None and self.eager_chooser.choose(2) == 1:
